@@ -436,13 +436,17 @@ func (x *ccExtra) apply(s *ccSession, i int, solo bool) error {
 	if x == nil {
 		return nil
 	}
-	if x.debug != nil {
-		s.setDebug(x.debug[i])
-	}
-	if x.langs != nil && s.persisted {
+	if x.langs != nil {
 		l := x.langs[i]
 		s.lang = &l
 		s.cfg.Language = l
+		if !s.persisted {
+			// the long-lived engine is built from the configuration: build it again (before setDebug / withFirst)
+			s.en = engine.NewEngine(s.cfg, s.rs).WithState(s.st).WithMemory(s.ca)
+		}
+	}
+	if x.debug != nil {
+		s.setDebug(x.debug[i])
 	}
 	s.applog = x.applog
 	if x.fs != nil && x.fs[i] && s.persisted {
@@ -1849,7 +1853,13 @@ func ccRunRace(o opts) error {
 	for i := 0; i < o.n; i++ {
 		r := hx.Rng(o.seed, "race", i)
 		stop := ccWatchdog(fmt.Sprintf("race case %d (seed %d)", i, o.seed))
-		g := ccGenApp(r)
+		var g ccGen
+		if i%3 == 0 {
+			// language runs: a lang1 function (answers language codes, sets FLAG_LANG) loaded by some nodes, translated templates
+			g = ccGenLangApp(r, true)
+		} else {
+			g = ccGenApp(r)
+		}
 		k := 2 + r.Intn(15)
 		pers := make([]bool, k)
 		hist := make([][][]byte, k)
@@ -1878,10 +1888,17 @@ func ccRunRace(o opts) error {
 		rx := hx.Rng(o.seed, "race-shape", i)
 		switch i % 3 {
 		case 0:
+			// every session with a Config.Language of its own (resolved when its engine is prepared; the lang1 function
+			// resolves more codes during requests): sessions resolve DIFFERENT codes at overlapping moments
+			kind = "app-concurrent-lang"
+			x = &ccExtra{langs: make([]string, k)}
+			for j := range x.langs {
+				x.langs[j] = ccPick(rx, []string{"nor", "swa", "fra", "eng", ""})
+			}
 			if i%2 == 0 {
-				// the application logs every request through ONE library logger (a value type, copied freely) that emits
-				kind = "app-concurrent-log"
-				x = &ccExtra{applog: true}
+				// ... and the application logs every request through ONE library logger (a value type, copied freely) that emits
+				kind = "app-concurrent-lang-log"
+				x.applog = true
 			}
 		case 1:
 			kind = "app-concurrent-debug"
